@@ -5,6 +5,7 @@ import (
 	"math/rand"
 	"strings"
 	"sync"
+	"sync/atomic"
 	"time"
 
 	"github.com/quickfixgo/quickfix"
@@ -33,15 +34,18 @@ func runLive(c *core.Ctx, r *core.Result) {
 		go func(i int) {
 			defer wg.Done()
 			defer func() { <-sem }()
-			v := liveScenario(c, r, i, c.Rand("live", i))
+			v := liveScenario(c, r, i, c.Rand("live", i), 0)
 			if strings.HasPrefix(v, "miss:") {
 				// re-run alone
 				sem2 := make(chan struct{}, 1)
 				sem2 <- struct{}{}
-				v2 := liveScenario(c, r, i, c.Rand("live", i))
-				if strings.HasPrefix(v2, "miss:") {
+				v2 := liveScenario(c, r, i, c.Rand("live", i), 1)
+				switch {
+				case strings.HasPrefix(v2, "miss:"):
 					r.Violate("C20/live/"+strings.Fields(v2)[1], v2, map[string]interface{}{"run": i, "first": v, "second": v2})
-				} else {
+				case v2 == "inconclusive":
+					r.Inconcl("live run %d missed once (%s) and its re-run was inconclusive", i, v)
+				default:
 					r.Inconcl("live run %d missed once (%s) and passed when re-run", i, v)
 				}
 			}
@@ -59,10 +63,10 @@ func parseTS(s string) (time.Time, bool) {
 	return time.Time{}, false
 }
 
-func liveScenario(c *core.Ctx, r *core.Result, idx int, rng *rand.Rand) string {
+func liveScenario(c *core.Ctx, r *core.Result, idx int, rng *rand.Rand, attempt int) string {
 	rec := &live.Recorder{}
 	begin := core.Pick(rng, "FIX.4.2", "FIX.4.4")
-	tag := fmt.Sprintf("C20x%dx%d", idx, rng.Intn(1<<20))
+	tag := fmt.Sprintf("C20x%dx%dx%d", idx, rng.Intn(1<<20), attempt) // (a wedged engine of the first attempt may still hold its session id)
 	kind := core.Pick(rng, "idle-answering", "silent")
 	const hbi = time.Second
 	const slack = 5 * time.Millisecond
@@ -92,7 +96,30 @@ func liveScenario(c *core.Ctx, r *core.Result, idx int, rng *rand.Rand) string {
 		r.Inconcl("live run %d: cannot start acceptor: %v", idx, err)
 		return "inconclusive"
 	}
-	defer eng.Stop()
+	defer func() {
+		// (an engine whose run loop is wedged never stops: give up on it after a while, the verdict has been reached)
+		done := make(chan struct{})
+		go func() { eng.Stop(); close(done) }()
+		select {
+		case <-done:
+		case <-time.After(10 * time.Second):
+			r.Count("harness.engine_did_not_stop", 1)
+		}
+	}()
+	// in some of the silent runs the last thing the peer sends is a Heartbeat whose FromAdmin callback takes longer
+	// than 1.2 intervals: the peer timer expires while the run loop is busy with that very message and is re-armed
+	// when the step ends; the obligations of the silence that follows are unchanged (later is allowed, never is not)
+	slowIn := kind == "silent" && rng.Intn(2) == 0
+	if slowIn {
+		kind += "+slow-inbound-callback"
+		d := time.Duration(1300+rng.Intn(300)) * time.Millisecond
+		var once int32
+		eng.App.FromAdminFn = func(m *quickfix.Message) {
+			if m.IsMsgTypeOf("0") && atomic.CompareAndSwapInt32(&once, 0, 1) {
+				time.Sleep(d)
+			}
+		}
+	}
 	next := 1
 	if rng.Intn(2) == 0 {
 		// an earlier connection of the same session, ended abruptly: the keep-alive obligations hold on every connection
@@ -175,7 +202,11 @@ func liveScenario(c *core.Ctx, r *core.Result, idx int, rng *rand.Rand) string {
 			prevOut = ts
 		}
 	}
-	switch strings.TrimSuffix(strings.TrimSuffix(kind, "+second-connection"), "+slow-callback") {
+	if slowIn {
+		lastInbound = time.Now().UTC()
+		p.Msg("0", 0, nil, nil)
+	}
+	switch strings.TrimSuffix(strings.TrimSuffix(strings.TrimSuffix(kind, "+second-connection"), "+slow-inbound-callback"), "+slow-callback") {
 	case "idle-answering":
 		// the peer only answers TestRequests (late); the engine must heartbeat on its own
 		ctl := control(hbi)
